@@ -1,0 +1,246 @@
+//go:build verif
+
+// Contracts for the verifier in /verif (comment-only; compiled only with -tags verif, adds no code).
+package decoder
+
+// ---- C08/C06: a keyword constraint offers its one keyword, only while the typed text is a prefix of it.
+//@ spec travOf(e hcl.Expression) *hclsyntax.ScopeTraversalExpr = as(e, "*hclsyntax.ScopeTraversalExpr")
+//@ contract (decoder.Keyword).CompletionAtPos (kw, ctx, pos) (result)
+//@   ensures [C08,name:at-most-the-one-keyword] len(result) <= 1
+//@   ensures [C08,name:the-keyword-of-the-constraint] implies(len(result) > 0, result[0].Label == kw.cons.Keyword && result[0].Kind == lang.KeywordCandidateKind)
+//@   ensures [C06,name:inserts-the-keyword-as-plain-text] implies(len(result) > 0, result[0].TextEdit.NewText == kw.cons.Keyword && result[0].TextEdit.Snippet == kw.cons.Keyword)
+//@   ensures [C08,name:offered-on-empty-or-for-a-typed-prefix] implies(len(result) > 0 && !isEmptyExpression(kw.expr), typeis(kw.expr, "*hclsyntax.ScopeTraversalExpr") && len(travOf(kw.expr).Traversal) == 1 && strings.HasPrefix(kw.cons.Keyword, prefix))
+//@   ensures [C08,name:prefix-is-the-text-before-the-cursor] implies(len(result) > 0 && !isEmptyExpression(kw.expr), 0 <= prefixLen && prefixLen <= len(travOf(kw.expr).Traversal.RootName()) && prefixLen == pos.Byte - travOf(kw.expr).Traversal.SourceRange().Start.Byte)
+//@   ensures [C06,name:edit-on-empty-is-at-the-cursor] implies(len(result) > 0 && isEmptyExpression(kw.expr), result[0].TextEdit.Range.Start == pos && result[0].TextEdit.Range.End == pos && result[0].TextEdit.Range.Filename == kw.expr.Range().Filename)
+//@   ensures [C06,name:edit-replaces-the-typed-word] implies(len(result) > 0 && !isEmptyExpression(kw.expr), result[0].TextEdit.Range == kw.expr.Range())
+//@   ensures [C08,name:offered-whenever-it-fits] implies(isEmptyExpression(kw.expr), len(result) == 1)
+//@   ensures [C08,name:offered-whenever-it-fits] implies(strings.HasPrefix(kw.cons.Keyword, prefix), len(result) == 1)
+
+// ---- C08/C06: boolean candidates. `false` and `true` are offered exactly when the typed text is a prefix of
+// ---- the word (and, under a literal-value constraint, the word is the declared value); each inserts the word
+// ---- itself over the range it was given.
+//@ spec boolCand(c lang.Candidate, word string, rng hcl.Range) bool = c.Label == word && c.Kind == lang.BoolCandidateKind && c.TextEdit.NewText == word && c.TextEdit.Snippet == word && c.TextEdit.Range == rng
+//@ contract decoder.boolLiteralTypeCandidates (prefix, editRange) (result)
+//@   ensures [C08,name:exactly-the-words-with-the-typed-prefix] len(result) == ite(strings.HasPrefix("false", prefix), 1, 0) + ite(strings.HasPrefix("true", prefix), 1, 0)
+//@   ensures [C08,C06,name:false-first] implies(strings.HasPrefix("false", prefix), boolCand(result[0], "false", editRange))
+//@   ensures [C08,C06,name:true-last] implies(strings.HasPrefix("true", prefix), boolCand(result[len(result)-1], "true", editRange))
+//@ contract (decoder.LiteralValue).boolLiteralValueCandidates (lv, prefix, editRange) (result)
+//@   requires [C08,name:bool-words-only-for-a-bool-value] lv.cons.Value.Type() == cty.Bool
+//@   ensures [C08,name:exactly-the-declared-value-with-the-typed-prefix] len(result) == ite(lv.cons.Value.False() && strings.HasPrefix("false", prefix), 1, 0) + ite(lv.cons.Value.True() && strings.HasPrefix("true", prefix), 1, 0)
+//@   ensures [C08,C06,name:false-first] implies(lv.cons.Value.False() && strings.HasPrefix("false", prefix), boolCand(result[0], "false", editRange))
+//@   ensures [C08,C06,name:true-last] implies(lv.cons.Value.True() && strings.HasPrefix("true", prefix), boolCand(result[len(result)-1], "true", editRange))
+//@   ensures [C08,name:carries-the-deprecation-and-description-of-the-value] implies(len(result) > 0, result[0].IsDeprecated == lv.cons.IsDeprecated && result[0].Description == lv.cons.Description && result[len(result)-1].IsDeprecated == lv.cons.IsDeprecated && result[len(result)-1].Description == lv.cons.Description)
+
+// ---- C08/C06: completing a written word against a bool constraint: the prefix is the text between the start
+// ---- of the word and the cursor (the cursor lies inside or at the end of the word), the edit replaces the word.
+//@ spec litOf(e hcl.Expression) *hclsyntax.LiteralValueExpr = as(e, "*hclsyntax.LiteralValueExpr")
+//@ contract (decoder.LiteralType).completeBoolAtPos (lt, ctx, pos) (result)
+//@   requires [C08,name:bool-words-only-for-a-bool-constraint] lt.cons.Type == cty.Bool
+//@   assert before decoder.boolLiteralTypeCandidates#1 : [C06,name:edit-replaces-the-word-and-starts-at-or-before-the-cursor] arg1 == lt.expr.Range() && arg1.Start.Byte <= pos.Byte
+//@   assert before decoder.boolLiteralTypeCandidates#1 : [C08,name:prefix-is-the-text-before-the-cursor] len(arg0) == pos.Byte - arg1.Start.Byte && pos.Byte <= arg1.Start.Byte + len(travOf(lt.expr).Traversal.RootName())
+//@   assert before decoder.boolLiteralTypeCandidates#2 : [C06,name:edit-replaces-the-word-and-starts-at-or-before-the-cursor] arg1 == lt.expr.Range() && arg1.Start.Byte <= pos.Byte
+//@   assert before decoder.boolLiteralTypeCandidates#2 : [C08,name:prefix-is-the-text-before-the-cursor] len(arg0) == pos.Byte - arg1.Start.Byte && pos.Byte <= arg1.Start.Byte + len(value) && value == ite(litOf(lt.expr).Val.True(), "true", "false")
+//@   ensures [C08,name:only-a-word-or-a-bool-literal-is-completed] implies(len(result) > 0, typeis(lt.expr, "*hclsyntax.ScopeTraversalExpr") || (typeis(lt.expr, "*hclsyntax.LiteralValueExpr") && litOf(lt.expr).Val.Type() == cty.Bool))
+//@   ensures [C06,name:every-edit-replaces-the-word] len(result) <= 2 && implies(len(result) > 0, result[0].TextEdit.Range == lt.expr.Range() && result[len(result)-1].TextEdit.Range == lt.expr.Range() && lt.expr.Range().Start.Byte <= pos.Byte)
+//@   ensures [C08,name:only-the-two-words] implies(len(result) > 0, (result[0].Label == "false" || result[0].Label == "true") && (result[len(result)-1].Label == "false" || result[len(result)-1].Label == "true"))
+//@ contract (decoder.LiteralValue).completeBoolAtPos (lv, ctx, pos) (result)
+//@   requires [C08,name:bool-words-only-for-a-bool-value] lv.cons.Value.Type() == cty.Bool
+//@   assert before (decoder.LiteralValue).boolLiteralValueCandidates#1 : [C08,name:against-the-declared-value] arg0.cons.Value == lv.cons.Value && arg0.cons.IsDeprecated == lv.cons.IsDeprecated && arg0.cons.Description == lv.cons.Description
+//@   assert before (decoder.LiteralValue).boolLiteralValueCandidates#2 : [C08,name:against-the-declared-value] arg0.cons.Value == lv.cons.Value && arg0.cons.IsDeprecated == lv.cons.IsDeprecated && arg0.cons.Description == lv.cons.Description
+//@   assert before (decoder.LiteralValue).boolLiteralValueCandidates#1 : [C06,name:edit-replaces-the-word-and-starts-at-or-before-the-cursor] arg2 == lv.expr.Range() && arg2.Start.Byte <= pos.Byte
+//@   assert before (decoder.LiteralValue).boolLiteralValueCandidates#1 : [C08,name:prefix-is-the-text-before-the-cursor] len(arg1) == pos.Byte - arg2.Start.Byte && pos.Byte <= arg2.Start.Byte + len(travOf(lv.expr).Traversal.RootName())
+//@   assert before (decoder.LiteralValue).boolLiteralValueCandidates#2 : [C06,name:edit-replaces-the-word-and-starts-at-or-before-the-cursor] arg2 == lv.expr.Range() && arg2.Start.Byte <= pos.Byte
+//@   assert before (decoder.LiteralValue).boolLiteralValueCandidates#2 : [C08,name:prefix-is-the-text-before-the-cursor] len(arg1) == pos.Byte - arg2.Start.Byte && pos.Byte <= arg2.Start.Byte + len(value) && value == ite(litOf(lv.expr).Val.True(), "true", "false")
+//@   ensures [C08,name:only-a-word-or-a-bool-literal-is-completed] implies(len(result) > 0, typeis(lv.expr, "*hclsyntax.ScopeTraversalExpr") || (typeis(lv.expr, "*hclsyntax.LiteralValueExpr") && litOf(lv.expr).Val.Type() == cty.Bool))
+//@   ensures [C06,name:every-edit-replaces-the-word] len(result) <= 2 && implies(len(result) > 0, result[0].TextEdit.Range == lv.expr.Range() && result[len(result)-1].TextEdit.Range == lv.expr.Range() && lv.expr.Range().Start.Byte <= pos.Byte)
+//@   ensures [C08,name:only-the-declared-value] implies(len(result) > 0, (result[0].Label == "false" && lv.cons.Value.False()) || (result[0].Label == "true" && lv.cons.Value.True())) && len(result) <= 1 + ite(lv.cons.Value.False() && lv.cons.Value.True(), 1, 0)
+
+// ---- C08/C06: a literal-type constraint. On an empty expression: the bool words for bool, nothing for other
+// ---- primitive types and for `any`, one literal skeleton of the expected collection/object type otherwise (unless
+// ---- complex types are skipped), inserted at the cursor. On a written expression: the bool words for bool only;
+// ---- a written collection/object literal is handed on with the element type(s) of the expected type.
+//@ spec litTypeOf(c schema.Constraint) cty.Type = as(c, "schema.LiteralType").Type
+//@ contract (decoder.LiteralType).CompletionAtPos (lt, ctx, pos) (result)
+//@   assert before decoder.boolLiteralTypeCandidates#1 : [C08,name:bool-words-only-for-a-bool-constraint] lt.cons.Type == cty.Bool && isEmptyExpression(lt.expr) && arg0 == ""
+//@   assert before decoder.boolLiteralTypeCandidates#1 : [C06,name:edit-on-empty-is-at-the-cursor] arg1.Start == pos && arg1.End == pos && arg1.Filename == lt.expr.Range().Filename
+//@   assert before (decoder.LiteralType).completeBoolAtPos#1 : [C08,name:against-the-same-expression-and-constraint] arg0.expr == lt.expr && arg0.cons.Type == lt.cons.Type && arg2 == pos
+//@   ensures [C08,name:nothing-literal-for-other-primitive-types-and-any] implies(lt.cons.Type != cty.Bool && (lt.cons.Type.IsPrimitiveType() || lt.cons.Type == cty.DynamicPseudoType) && isEmptyExpression(lt.expr), len(result) == 0)
+//@   ensures [C08,name:no-complex-literal-where-skipped] implies(lt.cons.Type != cty.Bool && lt.cons.SkipComplexTypes && isEmptyExpression(lt.expr), len(result) == 0)
+//@   ghost skelLabel after decoder.labelForLiteralType#1 : callresult
+//@   ghost skelText after decoder.newTextForLiteralType#1 : callresult
+//@   ghost skelSnippet after decoder.snippetForLiteralType#1 : callresult
+//@   assert before decoder.labelForLiteralType#1 : [C08,name:skeleton-of-the-expected-type] arg0 == lt.cons.Type
+//@   assert before decoder.newTextForLiteralType#1 : [C08,C06,name:skeleton-of-the-expected-type] arg0 == lt.cons.Type
+//@   assert before decoder.snippetForLiteralType#1 : [C08,C06,name:skeleton-of-the-expected-type-numbered-from-one] arg0 == 1 && arg1 == lt.cons.Type
+//@   ensures [C08,name:one-skeleton-of-the-expected-type] implies(lt.cons.Type != cty.Bool && isEmptyExpression(lt.expr) && len(result) > 0, len(result) == 1 && result[0].Label == skelLabel)
+//@   ensures [C08,name:one-skeleton-of-the-expected-type] implies(lt.cons.Type != cty.Bool && isEmptyExpression(lt.expr) && len(result) > 0, result[0].Kind == candidateKindForType(lt.cons.Type))
+//@   ensures [C08,C06,name:one-skeleton-of-the-expected-type] implies(lt.cons.Type != cty.Bool && isEmptyExpression(lt.expr) && len(result) > 0, result[0].TextEdit.NewText == skelText)
+//@   ensures [C08,C06,name:one-skeleton-of-the-expected-type] implies(lt.cons.Type != cty.Bool && isEmptyExpression(lt.expr) && len(result) > 0, result[0].TextEdit.Snippet == skelSnippet)
+//@   ensures [C06,name:edit-on-empty-is-at-the-cursor] implies(lt.cons.Type != cty.Bool && isEmptyExpression(lt.expr) && len(result) > 0, result[0].TextEdit.Range.Start == pos && result[0].TextEdit.Range.End == pos && result[0].TextEdit.Range.Filename == lt.expr.Range().Filename)
+//@   ensures [C08,name:skeleton-offered-whenever-it-fits] implies(!lt.cons.Type.IsPrimitiveType() && lt.cons.Type != cty.DynamicPseudoType && !lt.cons.SkipComplexTypes && isEmptyExpression(lt.expr), len(result) == 1)
+//@   assert before decoder.newExpression#1 : [C08,name:list-literal-against-the-element-type] !lt.cons.SkipComplexTypes && lt.cons.Type.IsListType() && arg1 == lt.expr && litTypeOf(as(arg2, "schema.List").Elem) == lt.cons.Type.ElementType()
+//@   assert before decoder.newExpression#2 : [C08,name:set-literal-against-the-element-type] !lt.cons.SkipComplexTypes && lt.cons.Type.IsSetType() && arg1 == lt.expr && litTypeOf(as(arg2, "schema.Set").Elem) == lt.cons.Type.ElementType()
+//@   assert before decoder.newExpression#3 : [C08,name:tuple-literal-against-the-element-types] !lt.cons.SkipComplexTypes && lt.cons.Type.IsTupleType() && arg1 == lt.expr && len(as(arg2, "schema.Tuple").Elems) == len(lt.cons.Type.TupleElementTypes())
+//@   loop 1 iter [C08,name:tuple-element-against-its-own-type] litTypeOf(cons.Elems[i]) == lt.cons.Type.TupleElementTypes()[i]
+//@   assert before decoder.newExpression#4 : [C08,name:map-literal-against-the-element-type] !lt.cons.SkipComplexTypes && lt.cons.Type.IsMapType() && arg1 == lt.expr && litTypeOf(as(arg2, "schema.Map").Elem) == lt.cons.Type.ElementType()
+//@   ghost objAttrs after decoder.ctyObjectToObjectAttributes#1 : callresult
+//@   assert before decoder.ctyObjectToObjectAttributes#1 : [C08,name:object-literal-against-the-attribute-types] arg0 == lt.cons.Type
+//@   assert before decoder.newExpression#5 : [C08,name:object-literal-against-the-attribute-types] !lt.cons.SkipComplexTypes && lt.cons.Type.IsObjectType() && arg1 == lt.expr && as(arg2, "schema.Object").Attributes == objAttrs
+
+// ---- C08: what fits an any-expression of type T at the cursor: references of type T, functions returning T,
+// ---- literals of type T (complex ones unless skipped), an index key - all asked about the same expression, at
+// ---- the same position, in the same context; a handler that owns the expression (ok == false) ends the
+// ---- collection, and nothing that was collected is dropped.
+//@ contract (decoder.Any).completeNonComplexExprAtPos (a, ctx, pos) (result)
+//@   assert before (decoder.Any).completeOperatorExprAtPos#1 : [C08] arg0.expr == a.expr && arg0.cons == a.cons && arg0.pathCtx == a.pathCtx && arg1 == ctx && arg2 == pos
+//@   assert before (decoder.Any).completeTemplateExprAtPos#1 : [C08] arg0.expr == a.expr && arg0.cons == a.cons && arg0.pathCtx == a.pathCtx && arg1 == ctx && arg2 == pos
+//@   assert before (decoder.Any).completeConditionalExprAtPos#1 : [C08] arg0.expr == a.expr && arg0.cons == a.cons && arg0.pathCtx == a.pathCtx && arg1 == ctx && arg2 == pos
+//@   assert before (decoder.Any).completeForExprAtPos#1 : [C08] arg0.expr == a.expr && arg0.cons == a.cons && arg0.pathCtx == a.pathCtx && arg1 == ctx && arg2 == pos
+//@   assert before (decoder.Any).completeIndexExprAtPos#1 : [C08] arg0.expr == a.expr && arg0.pathCtx == a.pathCtx && arg1 == ctx && arg2 == pos
+//@   assert before (decoder.Reference).CompletionAtPos#1 : [C08,name:references-of-the-expected-type] arg0.expr == a.expr && arg0.cons.OfType == a.cons.OfType && arg0.cons.OfScopeId == "" && arg0.pathCtx == a.pathCtx && arg1 == ctx && arg2 == pos
+//@   assert before (decoder.functionExpr).CompletionAtPos#1 : [C08,name:functions-returning-the-expected-type] arg0.expr == a.expr && arg0.returnType == a.cons.OfType && arg0.pathCtx == a.pathCtx && arg1 == ctx && arg2 == pos
+//@   assert before (decoder.LiteralType).CompletionAtPos#1 : [C08,name:literals-of-the-expected-type] arg0.expr == a.expr && arg0.cons.Type == a.cons.OfType && arg0.cons.SkipComplexTypes == a.cons.SkipLiteralComplexTypes && arg0.pathCtx == a.pathCtx && arg1 == ctx && arg2 == pos
+//@   ghost refCands after (decoder.Reference).CompletionAtPos#1 : callresult
+//@   ghost funcCands after (decoder.functionExpr).CompletionAtPos#1 : callresult
+//@   ghost litCands after (decoder.LiteralType).CompletionAtPos#1 : callresult
+//@   ghost idxCands after (decoder.Any).completeIndexExprAtPos#1 : callresult
+//@   ghost allAsked after (decoder.Any).completeIndexExprAtPos#1 : true
+//@   ensures [C08,C06,name:nothing-collected-is-dropped] implies(allAsked, len(result) == len(opCandidates) + len(templateCandidates) + len(condCandidates) + len(forCandidates) + len(refCands) + len(funcCands) + len(litCands) + len(idxCands))
+//@   ensures [C08,name:stops-only-when-a-handler-owns-the-expression] allAsked || !ok
+//@   ghost opFree after (decoder.Any).completeOperatorExprAtPos#1 : ok
+//@   ghost tplFree after (decoder.Any).completeTemplateExprAtPos#1 : ok
+//@   ghost condFree after (decoder.Any).completeConditionalExprAtPos#1 : ok
+//@   ghost forFree after (decoder.Any).completeForExprAtPos#1 : ok
+//@   ensures [C08,name:goes-on-only-past-handlers-that-do-not-own-the-expression] implies(allAsked, opFree && tplFree && condFree && forFree)
+//@   assert before (decoder.Any).completeTemplateExprAtPos#1 : [C08,name:asked-only-if-the-handler-before-does-not-own-the-expression] ok
+//@   assert before (decoder.Any).completeConditionalExprAtPos#1 : [C08,name:asked-only-if-the-handler-before-does-not-own-the-expression] ok
+//@   assert before (decoder.Any).completeForExprAtPos#1 : [C08,name:asked-only-if-the-handler-before-does-not-own-the-expression] ok
+//@   assert before (decoder.Reference).CompletionAtPos#1 : [C08,name:asked-only-if-the-handler-before-does-not-own-the-expression] ok
+
+// ---- C08: completion inside a conditional goes to the operand that contains the cursor or ends at it (the
+// ---- first such operand in source order), the condition against bool; a conditional owns its expression
+// ---- (ok == false) when the cursor is in none of its operands, anything else is left to the other handlers.
+// (Not stated, because the code does not do it: the two results are read against `any`, not against the type
+// expected of the whole conditional - see the report.)
+//@ spec inOrAt(r hcl.Range, pos hcl.Pos) bool = r.ContainsPos(pos) || r.End.Byte == pos.Byte
+//@ contract (decoder.Any).completeConditionalExprAtPos (a, ctx, pos) (result, ok)
+//@   assert before decoder.newExpression#1 : [C08,name:condition-against-bool] arg0 == a.pathCtx && arg1 == condOf(a.expr).Condition && as(arg2, "schema.AnyExpression").OfType == cty.Bool && inOrAt(condOf(a.expr).Condition.Range(), pos)
+//@   assert before decoder.newExpression#2 : [C08,name:true-result-when-the-cursor-is-in-it] arg0 == a.pathCtx && arg1 == condOf(a.expr).TrueResult && inOrAt(condOf(a.expr).TrueResult.Range(), pos) && !inOrAt(condOf(a.expr).Condition.Range(), pos)
+//@   assert before decoder.newExpression#3 : [C08,name:false-result-when-the-cursor-is-in-it] arg0 == a.pathCtx && arg1 == condOf(a.expr).FalseResult && inOrAt(condOf(a.expr).FalseResult.Range(), pos) && !inOrAt(condOf(a.expr).Condition.Range(), pos) && !inOrAt(condOf(a.expr).TrueResult.Range(), pos)
+//@   assert before invoke:CompletionAtPos#1 : [C08] arg0 == ctx && arg1 == pos
+//@   assert before invoke:CompletionAtPos#2 : [C08] arg0 == ctx && arg1 == pos
+//@   assert before invoke:CompletionAtPos#3 : [C08] arg0 == ctx && arg1 == pos
+//@   ensures [C08,name:owns-the-expression-when-the-cursor-is-in-no-operand] implies(typeis(a.expr, "*hclsyntax.ConditionalExpr"), ok == (inOrAt(condOf(a.expr).Condition.Range(), pos) || inOrAt(condOf(a.expr).TrueResult.Range(), pos) || inOrAt(condOf(a.expr).FalseResult.Range(), pos)))
+//@   ensures [C08,name:other-expressions-are-left-to-the-other-handlers] implies(!typeis(a.expr, "*hclsyntax.ConditionalExpr"), ok && len(result) == 0)
+//@   ensures [C08] implies(!ok, len(result) == 0)
+
+// ---- C08/C06: completion of an index key. `coll[` + cursor + `]` (a traversal whose last step is an empty
+// ---- index) starts a fresh completion on an empty expression at the cursor; a written key is completed as
+// ---- the key expression; both against string. Anything else yields nothing here.
+//@ spec indexOf(e hcl.Expression) *hclsyntax.IndexExpr = as(e, "*hclsyntax.IndexExpr")
+//@ contract (decoder.Any).completeIndexExprAtPos (a, ctx, pos) (result)
+//@   ghost emptyAtCursor after decoder.newEmptyExpressionAtPos#1 : callresult
+//@   assert before decoder.newEmptyExpressionAtPos#1 : [C06,name:empty-expression-at-the-cursor-in-the-same-file] arg0 == travOf(a.expr).Range().Filename && arg1 == pos
+//@   assert before decoder.newExpression#1 : [C08,name:empty-key-only-behind-an-index-step] typeis(a.expr, "*hclsyntax.ScopeTraversalExpr") && len(travOf(a.expr).Traversal) >= 2 && typeis(travOf(a.expr).Traversal[len(travOf(a.expr).Traversal)-1], "hcl.TraverseIndex")
+//@   assert before decoder.newExpression#1 : [C08,name:key-against-string] arg0 == a.pathCtx && arg1 == emptyAtCursor && as(arg2, "schema.AnyExpression").OfType == cty.String
+//@   assert before decoder.newExpression#2 : [C08,name:key-against-string] arg0 == a.pathCtx && arg1 == indexOf(a.expr).Key && as(arg2, "schema.AnyExpression").OfType == cty.String
+//@   assert before invoke:CompletionAtPos#1 : [C08] arg0 == ctx && arg1 == pos
+//@   assert before invoke:CompletionAtPos#2 : [C08] arg0 == ctx && arg1 == pos
+//@   ensures [C08,name:nothing-for-other-expressions] implies(!typeis(a.expr, "*hclsyntax.ScopeTraversalExpr") && !typeis(a.expr, "*hclsyntax.IndexExpr"), len(result) == 0)
+//@   ensures [C08,name:nothing-for-a-traversal-not-ending-in-an-index] implies(typeis(a.expr, "*hclsyntax.ScopeTraversalExpr") && (len(travOf(a.expr).Traversal) < 2 || !typeis(travOf(a.expr).Traversal[len(travOf(a.expr).Traversal)-1], "hcl.TraverseIndex")), len(result) == 0)
+
+// ---- C08: completion inside a template goes to the interpolated part that contains the cursor or ends at it
+// ---- (or ends one byte before it when that byte is the dot the parser dropped), read against string. The scan
+// ---- goes on only past parts that start at or before the cursor and do not reach it. A template owns its
+// ---- expression (ok == false) when it is a plain string literal or no part is under the cursor.
+//@ spec tplOf(e hcl.Expression) *hclsyntax.TemplateExpr = as(e, "*hclsyntax.TemplateExpr")
+//@ spec wrapOf(e hcl.Expression) *hclsyntax.TemplateWrapExpr = as(e, "*hclsyntax.TemplateWrapExpr")
+//@ contract (decoder.Any).completeTemplateExprAtPos (a, ctx, pos) (result, ok)
+//@   loop 1 iter [C08,name:scan-goes-on-only-past-parts-in-front-of-the-cursor] partExpr.Range().Start.Byte <= pos.Byte && !inOrAt(partExpr.Range(), pos)
+//@   assert before decoder.newExpression#1 : [C08,name:part-under-the-cursor-against-string] arg0 == a.pathCtx && arg1 == partExpr && as(arg2, "schema.AnyExpression").OfType == cty.String && inOrAt(partExpr.Range(), pos)
+//@   assert before decoder.newExpression#2 : [C08,name:part-before-a-dropped-dot-against-string] arg0 == a.pathCtx && arg1 == partExpr && as(arg2, "schema.AnyExpression").OfType == cty.String && pos.Byte == partExpr.Range().End.Byte + 1 && trailingRune == '.'
+//@   assert before decoder.newExpression#3 : [C08,name:wrapped-expression-under-the-cursor-against-string] arg0 == a.pathCtx && arg1 == wrapOf(a.expr).Wrapped && as(arg2, "schema.AnyExpression").OfType == cty.String && inOrAt(wrapOf(a.expr).Wrapped.Range(), pos)
+//@   assert before decoder.newExpression#4 : [C08,name:wrapped-expression-before-a-dropped-dot-against-string] arg0 == a.pathCtx && arg1 == wrapOf(a.expr).Wrapped && as(arg2, "schema.AnyExpression").OfType == cty.String && pos.Byte == wrapOf(a.expr).Wrapped.Range().End.Byte + 1 && trailingRune == '.'
+//@   assert before invoke:CompletionAtPos#1 : [C08] arg0 == ctx && arg1 == pos
+//@   assert before invoke:CompletionAtPos#2 : [C08] arg0 == ctx && arg1 == pos
+//@   assert before invoke:CompletionAtPos#3 : [C08] arg0 == ctx && arg1 == pos
+//@   assert before invoke:CompletionAtPos#4 : [C08] arg0 == ctx && arg1 == pos
+//@   ghost plainString after (*hclsyntax.TemplateExpr).IsStringLiteral#1 : callresult
+//@   assert before (*hclsyntax.TemplateExpr).IsStringLiteral#1 : [C08] arg0 == tplOf(a.expr)
+//@   ensures [C08,name:nothing-inside-a-plain-string] implies(plainString, !ok)
+//@   ghost literalChecked after (*hclsyntax.TemplateExpr).IsStringLiteral#1 : true
+//@   assert before decoder.newExpression#1 : [C08,name:parts-are-read-only-after-the-plain-string-check] literalChecked
+//@   assert before decoder.newExpression#2 : [C08,name:parts-are-read-only-after-the-plain-string-check] literalChecked
+//@   ensures [C08,name:wrapped-expression-under-the-cursor-is-completed] implies(typeis(a.expr, "*hclsyntax.TemplateWrapExpr") && inOrAt(wrapOf(a.expr).Wrapped.Range(), pos), ok)
+//@   ensures [C08,name:other-expressions-are-left-to-the-other-handlers] implies(!typeis(a.expr, "*hclsyntax.TemplateExpr") && !typeis(a.expr, "*hclsyntax.TemplateWrapExpr"), ok && len(result) == 0)
+//@   ensures [C08] implies(!ok, len(result) == 0)
+
+// ---- C07/C06: the candidate for an attribute of the effective schema: named after the attribute, its plain
+// ---- text is the bare name (no tab-stop syntax can come from the value), its snippet is `name = ` followed
+// ---- by the value snippet numbered from stop 1, its edit is the range handed in.
+//@ contract decoder.attributeSchemaToCandidate (ctx, name, attr, rng) (result)
+//@   assert before invoke:EmptyCompletionData#1 : [C06,name:value-snippet-numbered-from-one] arg0 == ctx && arg1 == 1 && arg2 == 0
+//@   ensures [C07,name:named-after-the-attribute] result.Label == name && result.Kind == lang.AttributeCandidateKind
+//@   ensures [C06,name:plain-text-is-the-bare-name] result.TextEdit.NewText == name
+//@   ensures [C06,name:snippet-is-name-equals-value-snippet] result.TextEdit.Snippet == name + (" = " + cData.Snippet)
+//@   ensures [C06,name:edit-is-the-range-handed-in] result.TextEdit.Range == rng
+//@   ensures [C07,name:described-by-its-schema] result.Description == old(attr.Description) && result.IsDeprecated == old(attr.IsDeprecated) && result.TriggerSuggest == cData.TriggerSuggest
+//@   assert before decoder.detailForAttribute#1 : [C07,name:described-by-its-schema] arg0 == attr
+
+// ---- C07: the detail line of an attribute candidate lists, in this order, write-only, required or else
+// ---- optional (never both), sensitive and the friendly name of the value constraint - each exactly when the
+// ---- schema says so.
+//@ contract decoder.detailForAttribute (attr) (result)
+//@   ensures [C07,name:one-entry-per-fact-of-the-schema] len(details) == ite(attr.IsWriteOnly, 1, 0) + ite(attr.IsRequired || attr.IsOptional, 1, 0) + ite(attr.IsSensitive, 1, 0) + ite(friendlyName != "", 1, 0)
+//@   ensures [C07,name:write-only-first] implies(attr.IsWriteOnly, details[0] == "write-only")
+//@   ensures [C07,name:required-wins-over-optional] implies(attr.IsRequired, details[ite(attr.IsWriteOnly, 1, 0)] == "required")
+//@   ensures [C07,name:required-wins-over-optional] implies(!attr.IsRequired && attr.IsOptional, details[ite(attr.IsWriteOnly, 1, 0)] == "optional")
+//@   ensures [C07,name:sensitive-behind-them] implies(attr.IsSensitive, details[ite(attr.IsWriteOnly, 1, 0) + ite(attr.IsRequired || attr.IsOptional, 1, 0)] == "sensitive")
+//@   ensures [C07,name:type-last] implies(friendlyName != "", details[len(details)-1] == friendlyName)
+
+// ---- C06: tab stops of a block snippet. Every label takes the next stop, starting at 1, and the body takes the
+// ---- stop behind the last label (with prefilled fields and a dependency-key label: the key label is the
+// ---- final stop 0 and nothing else is a stop).
+// (The verifier numbers the loops of this function 1 = the loop that prints the labels around a dependency key,
+// 2 = the numbering loop of the prefilled form, 3 = the loop that looks for a dependency key, 4 = the numbering
+// loop of the plain form.)
+//@ contract decoder.snippetForBlock (blockType, block, prefillRequiredFields) (result)
+//@   loop 3 iter [C06,C07,name:dependency-key-label-detected] depKey == (old(depKey) || l.IsDepKey)
+//@   loop 1 iter [C06,C07,name:key-label-is-the-final-stop] implies(l.IsDepKey, labels == old(labels) + " \"${0}\"")
+//@   loop 1 iter [C06,C07,name:other-labels-are-plain-text] implies(!l.IsDepKey, labels == old(labels) + (" \"" + (l.Name + "\"")))
+//@   ensures [C06,name:no-body-stop-when-the-key-label-is-completed-first] implies(prefillRequiredFields && depKey, result == blockType + (labels + " {\n}"))
+//@   loop 2 invariant [C06,claim] placeholder == rangeindex + 2
+//@   loop 4 invariant [C06,claim] placeholder == rangeindex + 2
+//@   loop 2 iter [C06,name:every-label-takes-the-next-stop] placeholder == old(placeholder) + 1
+//@   loop 4 iter [C06,name:every-label-takes-the-next-stop] placeholder == old(placeholder) + 1
+//@   ensures [C06,name:body-stop-follows-the-last-label] implies(!prefillRequiredFields, placeholder == len(block.Labels) + 1)
+//@   ensures [C06,name:body-stop-follows-the-last-label] implies(prefillRequiredFields && !depKey, placeholder == len(block.Labels) + 1)
+
+// ---- C07/C06: the candidate for a block type of the effective schema: named after the block type, its plain
+// ---- text is the bare type, its snippet is the block snippet for this type and schema (with or without
+// ---- prefilled fields as the decoder is configured), its edit is the range handed in; label completion is
+// ---- triggered exactly when the first label is a dependency key.
+//@ contract (*decoder.PathDecoder).blockSchemaToCandidate (d, blockType, block, rng) (result)
+//@   ghost blockSnippet after decoder.snippetForBlock#1 : callresult
+//@   assert before decoder.snippetForBlock#1 : [C06,C07,name:snippet-of-this-block-type] arg0 == blockType && arg1 == block && arg2 == d.PrefillRequiredFields
+//@   assert before decoder.detailForBlock#1 : [C07,name:described-by-its-schema] arg0 == block
+//@   ensures [C07,name:named-after-the-block-type] result.Label == blockType && result.Kind == lang.BlockCandidateKind
+//@   ensures [C06,name:plain-text-is-the-bare-type] result.TextEdit.NewText == blockType
+//@   ensures [C06,name:snippet-of-this-block-type] result.TextEdit.Snippet == blockSnippet
+//@   ensures [C06,name:edit-is-the-range-handed-in] result.TextEdit.Range == rng
+//@   ensures [C07,name:described-by-its-schema] result.Description == block.Description && result.IsDeprecated == block.IsDeprecated
+//@   ensures [C07,name:label-completion-follows-a-dependency-key-label] result.TriggerSuggest == (len(block.Labels) > 0 && block.Labels[0].IsDepKey)
+
+// ---- C07/C08: where body completion ends and value completion begins. The cursor belongs to the value of an
+// ---- attribute exactly when it is inside the value expression or at its end, right behind the `=`, or one
+// ---- byte behind the expression when that byte is the `.` the parser dropped.
+//@ contract (*decoder.PathDecoder).isPosInsideAttrExpr (d, attr, pos) (ok)
+//@   ensures [C07,C08,name:inside-or-at-the-end-of-the-value] implies(inOrAt(attr.Expr.Range(), pos), ok)
+//@   ensures [C07,C08,name:right-behind-the-equals-sign] implies(attr.EqualsRange.End.Byte == pos.Byte, ok)
+//@   ensures [C07,C08,name:otherwise-only-behind-a-dropped-dot] implies(ok && !inOrAt(attr.Expr.Range(), pos) && attr.EqualsRange.End.Byte != pos.Byte, pos.Byte == attr.Expr.Range().End.Byte + 1 && err == nil && string(b) == ".")
+//@   assert before (*decoder.PathDecoder).bytesFromRange#1 : [C07,C08,name:the-byte-between-the-value-and-the-cursor] arg1.Filename == attr.Expr.Range().Filename && arg1.Start == attr.Expr.Range().End && arg1.End == pos && pos.Byte == attr.Expr.Range().End.Byte + 1
+//@   ensures [C07,C08,name:a-dropped-dot-belongs-to-the-value] implies(err == nil && string(b) == ".", ok)
+
+// ---- C07: a position on the braces of a block or between its type and the opening brace is not in its body.
+//@ contract decoder.isPosOutsideBody (block, pos) (ok)
+//@   ensures [C07,name:header-and-braces-are-outside-the-body] ok == (block.OpenBraceRange.ContainsPos(pos) || block.CloseBraceRange.ContainsPos(pos) || hcl.RangeBetween(block.TypeRange, block.OpenBraceRange).ContainsPos(pos))
